@@ -107,6 +107,13 @@ claim('C17', 'typestate of the exec.Cmd object (dominating unconditional stores)
       'and Stdin is the request; the limited writer forwards only with N > 0, at most N bytes, and decrements N; the runner succeeds only on process success and a whole-buffer json.Unmarshal of stdout; the three failure mappings and all metadata gates (incl. name == plugin name) are fail-closed. '
       'NOT decided: real timing and memory, which follow from os/exec semantics (trusted).', 'DESIGN.md 2/C17')
 
+claim('C18', 'must-check gates per success exit (composed through helpers, parameter-substituted) + per-iteration loop gates + returned-value provenance + request-field stores + decision tables',
+      'Static, all-paths: the envelope path (the function calling SignPlugin.GenerateEnvelope) returns success only through plugin success, response type == requested type, ParseEnvelope of the response bytes, Envelope.Verify, payload type, payload decode, '
+      'content.Equal(requested descriptor, signed target), the completed preservation loop over the REQUESTED annotations (comma-ok lookup and value equality per pair) and an empty unknown-field scan of the verified bytes (scan removes only ocispec.Descriptor JSON names, reports both levels, '
+      'key-set helper unconditional); it returns exactly the parsed-and-verified bytes and the verified SignerInfo and stores plugin annotations only after all checks; the raw path accepts describe-key / generate-signature answers only under string equality of the key id, '
+      'sends key id, EncodeKeySpec/HashAlgorithmFromKeySpec of the described spec and the payload, parses every certificate fail-closed, and the generic signer returns only after Envelope.Sign, Envelope.Verify on the same object and the payload-type check; Sign/SignBlob return only those results, chosen by capability; '
+      'codec tables total and inverse. Consistency of key, chain and signature is trusted to notation-core-go Sign/Verify.', 'DESIGN.md 2/C18')
+
 NA_REASON = {}
 
 def main():
